@@ -1,7 +1,8 @@
 From Coq Require Import List NArith ZArith.
 From Stam Require Import Model.Offset Model.Json Model.TempId Model.StamJson Spec.StamJsonSpec Proofs.StamJson Proofs.StamJsonSave
      Proofs.StamJsonLoad Proofs.StamJsonAnn Proofs.StamJsonWhole Proofs.StamJsonSub
-     Model.Store Model.StamJsonView Proofs.StoreSets Proofs.CsvReach Proofs.StamJsonReach Props.C05.
+     Model.Store Model.StamJsonView Proofs.StoreSets Proofs.CsvReach Proofs.StamJsonReach
+     Proofs.StamJsonSubLoad Proofs.StamJsonMask Proofs.StamJsonSubWhole Props.C05.
 Check (C05_value_codec : forall v, parse_val (json_of_val v) = Some v).
 Check (C05_selector_codec : forall k ls, target_ok k ls -> parse_target (json_of_target k ls) = Some (k, ls)).
 Check (C05_document_codec : forall b, bstore_ok b -> parse_bstore (json_of_bstore b) = Some b).
@@ -37,3 +38,11 @@ Check (C05_reachable_roundtrip : forall ops,
 Print Assumptions C05_reachable_wellformed.
 Print Assumptions C05_reachable_roundtrip.
 Print Assumptions C05_reachable_roundtrip_standoff.
+Check (C05_substores_roundtrip : forall s ow,
+  owners_lt ow (ow_res ow) -> owners_lt ow (ow_set ow) -> owners_lt ow (ow_ann ow) ->
+  wf_dstore s = true -> arranged s ow = true ->
+  NoDup (map snd (ow_subs ow) ++ file_names s) ->
+  exists d s' ow', encode_o s ow = Some d /\ decode_o d = Some (s', ow') /\ same_model s s').
+Print Assumptions C05_substores_roundtrip.
+Print Assumptions C05_documents_one_by_one.
+Print Assumptions C05_restriction_wellformed.
